@@ -151,6 +151,13 @@ def run(tier, replay=None):
         errs = [rnd.choice(texts[("streamable", o)]) for o in s["outcomes"]]
         direct.append({"id": sid, "retry": cfg, "errors": errs, "cancel": {"at": "", "k": 0}})
         meta[sid] = (s, "streamable", cfg, errs)
+    # waits grow by the FACTOR also when it is not an integer: 40, 60, 90 ms with factor 1.5 (and 40, 70, 122.5 with 1.75)
+    for n, s in enumerate(capc[:8 if tier == "quick" else 40]):
+        sid = "frac%d" % n
+        cfg = {"max": int(s["cfg"]), "initial_ms": 40.0, "factor": [1.5, 1.75][n % 2], "max_ms": 1000.0}
+        errs = [rnd.choice(texts[("streamable", o)]) for o in s["outcomes"]]
+        direct.append({"id": sid, "retry": cfg, "errors": errs, "cancel": {"at": "", "k": 0}})
+        meta[sid] = (s, "streamable", cfg, errs)
     nproc = 12
     chunks = [direct[i::nproc] for i in range(nproc)]
 
@@ -246,6 +253,12 @@ def run(tier, replay=None):
         e2e.append({"id": "body|%s" % client, "client": client, "retry": {"max": 3, "initial_ms": 1.0, "factor": 2.0, "max_ms": 3.0},
                     "outcomes": ["s4xx", "s4xx", "s4xx", "s4xx"], "variant": 0, "body_var": 1,
                     "_model": {"outcomes": ["s4xx"], "result": "s4xx", "cfg": "3"}})
+    # the caller's deadline passes while the loop waits between attempts: the call ends at once with the CONTEXT's error
+    for client in ("streamable", "legacy"):
+        for k, o in enumerate(("s5xx", "s429", "reset")):
+            e2e.append({"id": "dl%d|%s" % (k, client), "client": client, "retry": {"max": 3, "initial_ms": 2500.0, "factor": 2.0, "max_ms": 5000.0},
+                        "outcomes": [o, o, o, o], "variant": k, "body_var": 0, "deadline_ms": 400,
+                        "_model": {"outcomes": [o], "result": "ctxErr", "cfg": "3"}})
     # a final failure stays final whatever the request's own id is: ids that look like retryable status codes
     for client in ("streamable", "legacy"):
         for sid in (408, 409, 429, 500, 502, 503, 504):
@@ -278,6 +291,13 @@ def run(tier, replay=None):
                                  % (r["attempts"], want, s["outcomes"], r.get("err", "")[:160]), rp)
                 if (m["result"] == "success") != r["ok"]:
                     run_.diverge("client=%s e2e result" % client, "call ok=%s, model result %s (script %s)" % (r["ok"], m["result"], s["outcomes"]), rp)
+                if m["result"] == "ctxErr" and r["attempts"] == want:
+                    if not r.get("is_ctx_err"):
+                        run_.diverge("client=%s e2e deadline-in-wait result-not-context-error" % client,
+                                     "the caller's deadline passed during the back-off wait; the call returned %r instead of the context's error" % r.get("err", "")[:200], rp)
+                    elif r.get("ms", 0) > s["deadline_ms"] + 700:
+                        run_.diverge("client=%s e2e deadline-in-wait late" % client,
+                                     "the call returned %.0f ms after it started, its deadline was %d ms" % (r["ms"], s["deadline_ms"]), rp)
                 run_.nontriv(["e2e", client, s["outcomes"], s["retry"], s["body_var"]])
 
     # ---- (d) clamping
